@@ -465,6 +465,21 @@ func visitInstr(fr *frame, instr ssa.Instruction) continuation {
 	case *ssa.IndexAddr:
 		x := fr.get(instr.X)
 		idx := fr.get(instr.Index)
+		// A symbolic index that is only ever loaded through (table look-ups such as
+		// asciiSpace[c]) becomes an ite chain instead of a fork over every index value.
+		if _, sym := idx.(*Term); sym && onlyLoaded(instr) {
+			var elems []value
+			switch x := x.(type) {
+			case []value:
+				elems = x
+			case *value:
+				elems = []value((*i.checkPtr(x)).(array))
+			}
+			if _, isInt := basicIntKind(deref(instr.Type())); isInt && len(elems) > 0 && len(elems) <= 256 {
+				fr.set(instr, &symAddr{elems: elems, idx: idx, tidx: instr.Index.Type(), telem: deref(instr.Type())})
+				break
+			}
+		}
 		switch x := x.(type) {
 		case []value:
 			k := i.indexIn(idx, instr.Index.Type(), len(x))
